@@ -6,12 +6,13 @@ from . import common, findings, pipeline, tlc
 from .common import Result
 
 
-def cfg(maxlen, depth, family='core', grid='GridS', rich=1):
+def cfg(maxlen, depth, family='core', grid='GridS', rich=1, big=0):
     return f'''CONSTANTS
   MaxLen = {maxlen}
   Depth = {depth}
   Family = "{family}"
   RichBudget = {rich}
+  BigLen = {big}
   SliceGrid <- {grid}
 SPECIFICATION Spec
 INVARIANT EmitProgram
@@ -23,12 +24,12 @@ CHECK_DEADLOCK FALSE
 #  library, n = the programs the MODEL flags + a seeded sample of n others)
 TIERS = {
     'quick': {
-        'bfs': [('d1-all-slice-forms', cfg(3, 1, grid='GridL3'), None),
+        'bfs': [('d1-all-slice-forms', cfg(3, 1, grid='GridL3', big=6), None),
                 ('d2', cfg(2, 2), 12000)],
         'random': {'count': 3000, 'depths': (3, 4, 5)},
     },
     'thorough': {
-        'bfs': [('d1-all-slice-forms', cfg(4, 1, grid='GridL4'), None),
+        'bfs': [('d1-all-slice-forms', cfg(4, 1, grid='GridL4', big=7), None),
                 ('d2', cfg(2, 2), None),
                 ('d2-len3', cfg(3, 2, grid='GridS'), 60000),
                 ('d3-reduced', cfg(2, 3, rich=0), 60000)],
@@ -51,7 +52,12 @@ SORT_TIERS = {
                          ('sortgroup-d3-reduced', cfg(3, 3, family='sortgroup', rich=1), 60000)],
                  'random': {'count': 30000, 'depths': (2, 3, 4, 5), 'payload': 'd', 'top': 'sortgroup'}},
 }
-FAMILY = {'C14': ('fault', FAULT_TIERS), 'C18': ('sortgroup', SORT_TIERS)}
+# C03 also looks at the fault family: stages that drop examples must not keep
+# answering keys() / items() with the keys of the dropped ones
+C03_TIERS = {t: {'bfs': TIERS[t]['bfs'] + [(n, c, 6000 if t == 'quick' else 60000)
+                                            for n, c, _ in FAULT_TIERS[t]['bfs'][:1]],
+                 'random': TIERS[t]['random']} for t in TIERS}
+FAMILY = {'C14': ('fault', FAULT_TIERS), 'C18': ('sortgroup', SORT_TIERS), 'C03': ('core', C03_TIERS)}
 
 
 def collect_programs(tier, family, res, rng, tiers=None):
